@@ -328,8 +328,8 @@ def ev_cov(case, rec):
 
 
 SUBCHECKS = [
-    Sub('formula', gen_formula, ev_formula, chunk=4, floor=1000),
-    Sub('covariance', gen_cov, ev_cov, chunk=2, floor=200),
+    Sub('formula', gen_formula, ev_formula, chunk=4, floor=1000, guard=True),
+    Sub('covariance', gen_cov, ev_cov, chunk=2, floor=200, guard=True),
 ]
 
 
